@@ -4,6 +4,7 @@ from __future__ import annotations
 from hypothesis import strategies as st
 
 from .. import model_ac as M
+from .. import refcodec as rc
 from .. import respkinds as RK
 from .. import vloop
 from ..devsim import SimDevice
@@ -15,7 +16,7 @@ RULE = ("model-based histories: a capability profile (breeze in {breeze-control,
         "both, none}; rate select none/2-level/5-level; iECO, self-clean, vertical/horizontal swing angle present or not) and a "
         "list of up to 25 (quick) / 40 (thorough) operations from {set angle (every member), set rate select (members the profile "
         "supports), breeze_away/mild/breezeless := bool (only where supports_* is true), ieco := bool, start_self_clean, beep := "
-        "bool, change an ordinary 0x40 setting, apply, refresh, device-side change of a property}. Start: get_capabilities(), "
+        "bool, change an ordinary 0x40 setting, apply, apply during which the reply to the state command is lost or corrupted, refresh, device-side change of a property}. Start: get_capabilities(), "
         "refresh(). Oracle: the model device's property store and write log: after each apply every property whose setter was "
         "called since the previous apply appears in exactly one 0xB0 of that apply under the advertised id with the vendor value "
         "(angles/rates raw, breeze-control 1..4, breeze-away 2/1, breezeless 1/0, iECO 13-byte record with number at 1 and switch "
@@ -212,12 +213,30 @@ def check_case(case: dict):
                         m.props[pid] = bytes([ANGLES[op[2] % 6]])
                     elif pid == 0x0039:
                         m.props[pid] = bytes([op[2] & 1])
-            elif k == "apply":
+            elif k in ("apply", "apply_lossy"):
                 mark = len(m.prop_writes)
                 nstate = len(m.control_bodies)
-                await ac.apply()
+                if k == "apply_lossy":
+                    # the device executes the state command but its reply gets lost (or arrives corrupted)
+                    def lossy(dev_, conn, frame, how=op[1]):
+                        try:
+                            is_state = rc.frame_parse(frame).body[0] == 0x40
+                        except Exception:
+                            is_state = False
+                        if not is_state:
+                            return None
+                        if how == 0:
+                            return ("frames", [], {})
+                        bad = bytearray(m.state_frame(0x02))
+                        bad[12] ^= 0xFF
+                        return ("frames", [bytes(bad)], {})
+                    dev.on_data = lossy
+                try:
+                    await ac.apply()
+                finally:
+                    dev.on_data = None
                 w = m.prop_writes[mark:]
-                if len(m.control_bodies) != nstate + 1:
+                if len({bytes(b) for b in m.control_bodies[nstate:]}) != 1:
                     fail("apply/no-state-command", "apply did not send exactly one 0x40 command")
                 if not pending:
                     if w:
@@ -315,6 +334,7 @@ def ops_strategy(max_len: int):
         st.tuples(st.just("away"), st.booleans()), st.tuples(st.just("mild"), st.booleans()), st.tuples(st.just("breezeless"), st.booleans()),
         st.tuples(st.just("ieco"), st.booleans()), st.tuples(st.just("beep"), st.booleans()), st.tuples(st.just("setting"), st.integers(0, 60)),
         st.tuples(st.just("clean")), st.tuples(st.just("apply")), st.tuples(st.just("apply")), st.tuples(st.just("refresh")),
+        st.tuples(st.just("apply_lossy"), st.integers(0, 1)),
         st.tuples(st.just("remote"), st.sampled_from([0x0009, 0x000A, 0x0048, 0x0043, 0x0042, 0x0018, 0x00E3, 0x0039]), st.integers(0, 7)),
     ).map(list)
     free = st.lists(op, min_size=1, max_size=max_len)
@@ -334,6 +354,7 @@ def run(ctx) -> None:
             for setter in (["ud", 50], ["lr", 100], ["rate", 1], ["rate", 2], ["away", True], ["away", False], ["mild", True], ["breezeless", True],
                            ["breezeless", False], ["ieco", True], ["ieco", False], ["clean"], ["beep", True]):
                 scripts.append([setter, ["apply"], ["refresh"], ["apply"], ["refresh"]])
+                scripts.append([setter, ["apply_lossy", len(scripts) % 2], ["refresh"], ["apply"], ["refresh"]])
                 scripts.append([["breezeless", True], ["apply"], setter, ["apply"], ["refresh"], ["remote", 0x0042, 1], ["refresh"], ["remote", 0x0018, 1], ["refresh"]])
             scripts.append([["away", True], ["breezeless", True], ["apply"], ["refresh"], ["away", True], ["apply"], ["refresh"], ["breezeless", False], ["apply"], ["refresh"]])
             for s in scripts:
